@@ -46,11 +46,43 @@ def role_filter(prog, res, K, meth, keep: set) -> None:
     fi = prog.resolve_method(K, meth)
     if fi is None:
         raise AnalysisError(f"{K}.{meth} vanished")
-    loops = [n for n in ast.walk(fi.node) if isinstance(n, ast.For)
-             and norm(n.iter) in ("self.bonds", "self._bond_attrs",
-                                  "self._bond_attrs.items()")]
+    base_env = dict(ROLE_ENV)
+
+    def bond_loops(f):
+        return [n for n in ast.walk(f.node) if isinstance(n, ast.For)
+                and norm(n.iter) in ("self.bonds", "self._bond_attrs",
+                                     "self._bond_attrs.items()")]
+    loops = bond_loops(fi)
+    hops = 0
+    while not loops and hops < 3:
+        # delegation to a helper: return self._helper(<constants>, ...)
+        hops += 1
+        calls = [n for n in ast.walk(fi.node) if isinstance(n, ast.Call)
+                 and isinstance(n.func, ast.Attribute)
+                 and norm(n.func.value) == "self"]
+        target = None
+        for c in calls:
+            cand = prog.resolve_method(K, c.func.attr)
+            if cand is not None and bond_loops(cand):
+                target = (cand, c)
+                break
+        if target is None:
+            break
+        cand, c = target
+        params = cand.params()[1:]
+        pe0 = PE(fi.node, dict(base_env))
+        for pn, a in zip(params, c.args):
+            v = pe0.ev(a, dict(base_env))
+            if v is not UNKNOWN:
+                base_env[pn] = v
+        for k in c.keywords:
+            v = pe0.ev(k.value, dict(base_env))
+            if k.arg and v is not UNKNOWN:
+                base_env[k.arg] = v
+        fi = cand
+        loops = bond_loops(fi)
     if not loops:
-        raise AnalysisError(f"{fi.short}: bond loop not found")
+        raise AnalysisError(f"{K}.{meth}: bond loop not found")
     loop = loops[-1]
     for role in ROLES:
         def oracle(e, pe, env, role=role):
@@ -62,17 +94,17 @@ def role_filter(prog, res, K, meth, keep: set) -> None:
             if t in ("keep_attributes is True", "keep_attributes"):
                 return True
             return None
-        pe = PE(as_func(loop.body), dict(ROLE_ENV), oracle=oracle)
+        pe = PE(as_func(loop.body), dict(base_env), oracle=oracle)
         outs = pe.run()
         added = any("add_bond" in c for o in outs for c in path_calls(o))
         always = all(any("add_bond" in c for c in path_calls(o)) for o in outs)
-        inst = f"{fi.short}: role {role} -> {'kept' if role in keep else 'dropped'}"
+        inst = f"{K}.{meth}: role {role} -> {'kept' if role in keep else 'dropped'}"
         want = role in keep
         if (want and always) or (not want and not added):
             res.ok("R-ROLE-TABLE", inst, fi.loc(loop))
         else:
-            res.bad("R-ROLE-TABLE", f"{fi.short}: role {role}", fi.loc(loop),
-                    f"{fi.short}: a bond with role {role} is "
+            res.bad("R-ROLE-TABLE", f"{K}.{meth}: role {role}", fi.loc(loop),
+                    f"{K}.{meth} (via {fi.short}): a bond with role {role} is "
                     f"{'kept' if added else 'dropped'}, but {meth}() must "
                     f"{'keep' if want else 'drop'} it", instance=inst)
     # the reaction attribute itself must not leak into the result
